@@ -216,7 +216,8 @@ func (ns *namesys) resolveOnceAsync(ctx context.Context, p path.Path, options Re
 		return out
 	}
 
-	if resolvedBase, ttl, lastMod, ok := ns.cacheGet(resolvablePath.String()); ok {
+	cacheKey := ns.resolveCacheKey(resolvablePath, segments[1])
+	if resolvedBase, ttl, lastMod, ok := ns.cacheGet(cacheKey); ok {
 		p, err = joinPaths(resolvedBase, p)
 		span.SetAttributes(attribute.Bool("CacheHit", true))
 		span.RecordError(err)
@@ -262,7 +263,7 @@ func (ns *namesys) resolveOnceAsync(ctx context.Context, p path.Path, options Re
 			case res, ok := <-resCh:
 				if !ok {
 					if best != (AsyncResult{}) {
-						ns.cacheSet(resolvablePath.String(), best.Path, best.TTL, best.LastMod)
+						ns.cacheSet(cacheKey, best.Path, best.TTL, best.LastMod)
 					}
 					return
 				}
@@ -284,6 +285,23 @@ func (ns *namesys) resolveOnceAsync(ctx context.Context, p path.Path, options Re
 	}()
 
 	return out
+}
+
+// resolveCacheKey returns the key under which the resolution of the given
+// resolvable path ("/ipns/" + name) is cached. An IPNS name is keyed by its
+// canonical string, whatever textual form (base36 or base32 CIDv1, base58 peer
+// ID) was used to write it, because that is the key [namesys.Publish] updates
+// and invalidates: a publish is then seen by every later resolve of the name.
+// Everything else (DNSLink names, IPFS_NS_MAP entries) is keyed by the path.
+func (ns *namesys) resolveCacheKey(resolvablePath path.Path, name string) string {
+	key := resolvablePath.String()
+	if _, ok := ns.staticMap[key]; ok {
+		return key
+	}
+	if ipnsName, err := ipns.NameFromString(name); err == nil {
+		return ipnsName.String()
+	}
+	return key
 }
 
 func emitOnceResult(ctx context.Context, outCh chan<- AsyncResult, r AsyncResult) {
